@@ -2,6 +2,8 @@ SPECIFICATION Spec
 CONSTANTS
   P = 2
   K = 1
+  Nested = FALSE
+  WaitFirst = TRUE
   Synchronised = FALSE
 INVARIANTS
   AllReported
